@@ -3,6 +3,8 @@
 #include <algorithm>
 #include <map>
 #include <set>
+#include <atomic>
+#include <thread>
 
 #include <signal.h>
 #include <sys/wait.h>
@@ -181,15 +183,15 @@ namespace
          {30, 20, 6, 6, 20, 0, 3, 3, 3, 1, 2, 1, 1, 0, 0, 3, 0, 1, 4, 0, 0, 0, 1, 0, 0, 0, 0, 0, 0}, 200, false,
          "case with a successful request that has alignment>=8, or an array with count>=2, or sits in "
          "a position class (first in a fresh block / fills block / after growth / after unwind)"},
-        {"C03", O_CORE | O_FAIL, ALL_FAM,
+        {"C03", O_CORE | O_FAIL | O_NOREPORT, ALL_FAM,
          {20, 8, 8, 6, 16, 14, 2, 2, 3, 1, 1, 1, 1, 0, 0, 2, 0, 1, 3, 6, 0, 6, 0, 0, 0, 0, 0, 0, 0}, 160, true,
          ">=1 failed request (oversize / exhaustion / injected upstream fault) followed by >=1 "
          "successful allocation and >=1 release of memory allocated before the failure"},
-        {"C04", O_CORE | O_CONSERVE, FB(F_POOL) | FB(F_COLL),
+        {"C04", O_CORE | O_CONSERVE | O_NOREPORT, FB(F_POOL) | FB(F_COLL),
          {30, 16, 4, 4, 30, 0, 0, 0, 0, 0, 3, 1, 1, 0, 0, 2, 8, 6, 0, 0, 0, 0, 0, 0, 0, 0, 0, 0, 0}, 200, false,
          "segment with >=1 array whose byte count is not a multiple of the node size, or >=6 releases "
          "in an order different from allocation order and its reverse, or a cycle with k>=3"},
-        {"C05", O_CORE | O_UPSTREAM, FB(F_POOL) | FB(F_COLL) | FB(F_STACK) | FB(F_ITER),
+        {"C05", O_CORE | O_UPSTREAM | O_NOREPORT, FB(F_POOL) | FB(F_COLL) | FB(F_STACK) | FB(F_ITER),
          {30, 10, 4, 2, 20, 0, 6, 8, 3, 6, 2, 3, 3, 2, 3, 1, 0, 2, 4, 2, 0, 4, 0, 0, 0, 0, 0, 0, 0}, 200, true,
          ">=3 upstream blocks acquired and one of: a shrink_to_fit with cached blocks / a move or swap "
          "with >=2 blocks / an injected failure at k>=2 / destruction with live allocations"},
@@ -200,7 +202,7 @@ namespace
          {40, 10, 10, 4, 4, 0, 0, 0, 16, 0, 0, 2, 2, 0, 1, 4, 0, 0, 4, 2, 3, 0, 0, 0, 0, 0, 0, 0, 0}, 200, false,
          ">=N+1 next_iteration calls with allocations of >=2 iterations alive at once (N>=2), or a "
          "block size with size mod N != 0"},
-        {"C12", O_CORE | O_UPSTREAM | O_MOVE, FB(F_POOL) | FB(F_COLL) | FB(F_STACK) | FB(F_ITER),
+        {"C12", O_CORE | O_UPSTREAM | O_MOVE | O_NOREPORT, FB(F_POOL) | FB(F_COLL) | FB(F_STACK) | FB(F_ITER),
          {30, 10, 4, 2, 20, 0, 3, 3, 3, 2, 2, 8, 8, 5, 6, 3, 0, 1, 2, 3, 0, 0, 0, 0, 0, 0, 0, 0, 0}, 160, false,
          "a move/move-assignment/swap with >=3 live allocations (>=2 blocks for growing subjects), "
          "followed by >=2 more operations on the new owner, moved-from object destroyed"},
@@ -2160,6 +2162,40 @@ namespace
                 net += std::ptrdiff_t(v.second);
             return net;
         }
+        // the same on several threads at once ("process-wide net"): every thread runs balanced
+        // allocate/release rounds behind a common start flag, then `leave` of them keep one node
+        template <class A>
+        static std::ptrdiff_t ll_history_mt(uint32_t a, uint32_t b, unsigned leave)
+        {
+            using traits = fm::allocator_traits<A>;
+            const unsigned             T = 3 + b % 2;
+            std::atomic<bool>          go{false};
+            std::atomic<std::ptrdiff_t> net{0};
+            std::vector<std::thread>   th;
+            for (unsigned t = 0; t < T; ++t)
+                th.emplace_back(
+                    [&, t]
+                    {
+                        A      alloc;
+                        size_t size = 1 + (a * 13 + t * 101) % 500;
+                        while (!go.load())
+                            std::this_thread::yield();
+                        for (unsigned r = 0; r < 1500 + a % 1500; ++r)
+                        {
+                            void* p = traits::allocate_node(alloc, size, 8);
+                            traits::deallocate_node(alloc, p, size, 8);
+                        }
+                        if (t < leave)
+                        {
+                            (void)traits::allocate_node(alloc, size, 8);
+                            net += std::ptrdiff_t(size);
+                        }
+                    });
+            go.store(true);
+            for (auto& x : th)
+                x.join();
+            return net.load();
+        }
         void op_ll_exit(const Op& op)
         {
             if (!has(O_LEAK) || !leak_on)
@@ -2182,24 +2218,30 @@ namespace
                 unsigned       leave = op.c % 3; // 0: balanced
                 std::ptrdiff_t net   = 0;
                 const char*    name  = "";
+                bool mt = (op.b / 2) % 3 == 0; // several threads share the process-wide counter
                 switch (op.a % 4)
                 {
                 case 0:
-                    net  = ll_history<fm::heap_allocator>(op.a, op.b, leave);
+                    net  = mt ? ll_history_mt<fm::heap_allocator>(op.a, op.b, leave) :
+                                ll_history<fm::heap_allocator>(op.a, op.b, leave);
                     name = "heap_allocator";
                     break;
                 case 1:
-                    net  = ll_history<fm::malloc_allocator>(op.a, op.b, leave);
+                    net  = mt ? ll_history_mt<fm::malloc_allocator>(op.a, op.b, leave) :
+                                ll_history<fm::malloc_allocator>(op.a, op.b, leave);
                     name = "malloc_allocator";
                     break;
                 case 2:
-                    net  = ll_history<fm::new_allocator>(op.a, op.b, leave);
+                    net  = mt ? ll_history_mt<fm::new_allocator>(op.a, op.b, leave) :
+                                ll_history<fm::new_allocator>(op.a, op.b, leave);
                     name = "new_allocator";
                     break;
                 default:
                     net  = ll_history<fm::virtual_memory_allocator>(op.a, op.b, leave);
                     name = "virtual_memory_allocator";
                 }
+                if (mt && op.a % 4 != 3)
+                    (void)!write(fds[1], "MT\n", 3);
                 char buf[200];
                 int  n = std::snprintf(buf, sizeof buf, "EXPECT %s %ld %u\n", name, long(net), leave);
                 (void)!write(fds[1], buf, size_t(n));
@@ -2253,6 +2295,8 @@ namespace
                 fail("ll-exit-amount", std::string(name) + ": reported less than the net");
             ++n_ll_exit;
             ci.classes.insert(net ? "ll-exit-leak" : "ll-exit-balanced");
+            if (out.find("MT\n") != std::string::npos)
+                ci.classes.insert("ll-exit-threads");
         }
 
         //--- C16: covered invalid releases, each in a forked child ---//
